@@ -72,6 +72,22 @@ CONSTRUCT_LINES = ["m macro a,b", "m macro", " endm", " if 1", " if 0", " else",
                    " codepage c2,c3", " enum a,b=3,c", " nextenum d", " radix 37", " radix 1", " outradix 2",
                    " segment xdata", " org $", " rorg -5", " align 3", " align 0", " align 1,2,3"]
 
+# message numbers for EXPECT: the statement's own family (2130..2160) and frequent ones get half of the weight
+EXPECT_OWN = [2130, 2140, 2150, 2160, 1200, 1320, 1110, 1010, 60, 100]
+_errnums = None
+
+
+def errnums():
+    global _errnums
+    if _errnums is None:
+        path = os.path.join(os.environ.get("VERIF_REPO", "/repo"), "errmsg.h")
+        try:
+            _errnums = sorted({int(x) for x in re.findall(r"=\s*(\d+),", open(path).read())})
+        except OSError:
+            _errnums = list(EXPECT_OWN)
+    return _errnums
+
+
 _cpus = None
 
 
@@ -101,6 +117,14 @@ def strategy_(d, tier):
         for _ in range(d.int(1, 14)):
             w = d.weighted([(6, "op"), (3, "construct"), (2, "data")])
             if w == "construct":
+                if d.bool(0.12):
+                    nums = [d.choice(EXPECT_OWN) if d.bool(0.5) else d.choice(errnums()) for _ in range(d.int(1, 3))]
+                    lines.append(" expect %s" % ",".join(str(n) for n in nums))
+                    if d.bool(0.7):
+                        lines.append(d.choice([" nop", " lda #300", " xyzzy", " db 1/0", ""]))
+                    if d.bool(0.8):
+                        lines.append(" endexpect")
+                    continue
                 lines.append(d.choice(CONSTRUCT_LINES))
                 continue
             op = d.choice(GLOBAL_OPS if w == "op" else DATA_OPS)
